@@ -197,10 +197,11 @@ Section Generic.
   Variable comp : wire -> wire.
   Variable decomp : wire -> option wire.
   Variable sha : wire -> bytes.
+  Variable framed : wire -> bool.
 
   Notation externalize := (externalize wire enc comp sha).
   Notation externalize_by := (externalize_by wire enc comp sha).
-  Notation resolve := (resolve wire dec decomp sha).
+  Notation resolve := (resolve wire dec decomp sha framed).
   Notation fetch := (fetch wire decomp).
   Notation sha_ok := (sha_ok wire sha).
 
@@ -293,6 +294,7 @@ Section Generic.
       | None => RErr EFetch
       | Some w =>
           if negb (sha_ok m w) then RErr ESha
+          else if negb (framed w) then RErr EParse
           else match dec w with
                | None => RErr EParse
                | Some bs => match select_by classify None bs with
@@ -320,7 +322,8 @@ Section Generic.
     resolve (Some c) p m srv = ROk r m' ->
     exists u w bs,
       is_pointer (b_rows p) m = true /\ mget m c30_k_location = Some u /\ u <> [] /\
-      url_ok (c_val c) u = true /\ fetch srv u = Some w /\ sha_ok m w = true /\ dec w = Some bs /\
+      url_ok (c_val c) u = true /\ fetch srv u = Some w /\ sha_ok m w = true /\
+      framed w = true /\ dec w = Some bs /\
       In r bs /\ classify r = CData /\ has_ptr_by classify bs = false /\
       (exists pre, datas_by classify bs = pre ++ [r]) /\ m' = fetch_meta u.
   Proof.
@@ -330,6 +333,7 @@ Section Generic.
     destruct (url_ok (c_val c) (x :: u)) eqn:Hu; cbn [negb]; [|discriminate].
     destruct (fetch srv (x :: u)) as [w|] eqn:Hf; [|discriminate].
     destruct (sha_ok m w) eqn:Hs; cbn [negb]; [|discriminate].
+    destruct (framed w) eqn:Hfr; cbn [negb]; [|discriminate].
     destruct (dec w) as [bs|] eqn:Hd; [|discriminate].
     destruct (select_by classify None bs) as [r'|e] eqn:Hsel; [|discriminate].
     intro H; inversion H; subst r' m'.
@@ -341,13 +345,24 @@ Section Generic.
   Lemma resolve_error_lemma c p m srv x u w bs :
     is_pointer (b_rows p) m = true -> mget m c30_k_location = Some (x :: u) ->
     url_ok (c_val c) (x :: u) = true -> fetch srv (x :: u) = Some w -> sha_ok m w = true ->
-    dec w = Some bs ->
+    framed w = true -> dec w = Some bs ->
     has_ptr_by classify bs = true \/ datas_by classify bs = [] ->
     resolve (Some c) p m srv = RErr (if has_ptr_by classify bs then ELoop else ENoData).
   Proof.
-    intros Hp Hl Hu Hf Hs Hd Hbad.
-    rewrite (resolve_pointer _ _ _ _ _ _ Hp Hl Hu), Hf, Hs, Hd. cbn [negb].
+    intros Hp Hl Hu Hf Hs Hfr Hd Hbad.
+    rewrite (resolve_pointer _ _ _ _ _ _ Hp Hl Hu), Hf, Hs, Hfr, Hd. cbn [negb].
     now rewrite (select_err _ _ Hbad).
+  Qed.
+
+  (* an ill-framed download is refused, whatever arrow could still read from it *)
+  Lemma ill_framed_lemma c p m srv x u w :
+    is_pointer (b_rows p) m = true -> mget m c30_k_location = Some (x :: u) ->
+    url_ok (c_val c) (x :: u) = true -> fetch srv (x :: u) = Some w ->
+    framed w = false ->
+    exists e, resolve (Some c) p m srv = RErr e /\ (e = ESha \/ e = EParse).
+  Proof.
+    intros Hp Hl Hu Hf Hfr. rewrite (resolve_pointer _ _ _ _ _ _ Hp Hl Hu), Hf, Hfr.
+    destruct (sha_ok m w); cbn [negb]; eauto.
   Qed.
 
   Lemma resolve_passthrough c p m srv :
@@ -360,6 +375,7 @@ Section Generic.
   (* ---- the round trip ---- *)
   Hypothesis dec_enc : forall bs, dec (enc bs) = Some bs.
   Hypothesis decomp_comp : forall w, decomp (comp w) = Some w.
+  Hypothesis framed_enc : forall bs, framed (enc bs) = true.
 
   Lemma roundtrip_lemma c b size side url :
     c_storage c = true -> b_rows b <> 0 -> (threshold c <= size)%Z -> level_bad c = false ->
@@ -379,7 +395,7 @@ Section Generic.
     assert (Hf : fetch (Some (Build_served (c0 :: u) obj (zstd_on c))) (c0 :: u) = Some (enc [with_side b side])).
     { unfold C30.fetch. cbn [s_url s_obj s_z]. rewrite beqb_refl. subst obj.
       destruct (zstd_on c); [apply decomp_comp | reflexivity]. }
-    rewrite Hf, sha_ok_pm, dec_enc. cbn [negb select_by].
+    rewrite Hf, sha_ok_pm, framed_enc, dec_enc. cbn [negb select_by].
     rewrite (classify_data (with_side b side) Hr Hlog). reflexivity.
   Qed.
 
@@ -407,15 +423,17 @@ Lemma sdec_enc bs : sdec (SIpc bs) = Some bs.
 Proof. reflexivity. Qed.
 Lemma sdecomp_comp w : sdecomp (SZ w) = Some w.
 Proof. reflexivity. Qed.
+Lemma sframed_enc bs : sframed (SIpc bs) = true.
+Proof. reflexivity. Qed.
 
 Lemma batches_eqb_refl bs : list_eqb batch_eqb bs bs = true.
 Proof. apply list_eqb_eq; [apply batch_eqb_eq | reflexivity]. Qed.
 Lemma swire_eqb_refl w : swire_eqb w w = true.
 Proof.
-  induction w as [bs | w IH | tag d]; cbn [swire_eqb].
+  induction w as [bs | w IH | tag f d]; cbn [swire_eqb].
   - apply batches_eqb_refl.
   - exact IH.
-  - rewrite N.eqb_refl. destruct d; cbn; [apply batches_eqb_refl | reflexivity].
+  - rewrite N.eqb_refl, Bool.eqb_reflx. destruct d; cbn; [apply batches_eqb_refl | reflexivity].
 Qed.
 Lemma ups_eqb_refl1 w z : ups_eqb [(w, z)] [(w, z)] = true.
 Proof.
@@ -443,23 +461,35 @@ Proof.
   { unfold sresolve, resolve, resolve_by, honest. rewrite Hp, Hl. reflexivity. }
   destruct (url_ok (c_val c) (x :: u)) eqn:Hu.
   2:{ unfold sresolve, resolve, resolve_by, honest. rewrite Hp, Hl, Hu. reflexivity. }
-  unfold sresolve. rewrite (resolve_pointer swire sdec sdecomp (ssha t) c p m srv x u Hp Hl Hu).
+  unfold sresolve. rewrite (resolve_pointer swire sdec sdecomp (ssha t) sframed c p m srv x u Hp Hl Hu).
   unfold honest, ok_is_sound, sfetch. rewrite Hp, Hl, Hu.
   destruct (fetch swire sdecomp srv (x :: u)) as [w|]; [|reflexivity].
   destruct (sha_ok swire (ssha t) m w) eqn:Hs; cbn [negb]; [|reflexivity].
-  destruct (sdec w) as [bs|]; [|reflexivity].
-  change (existsb is_ptr bs) with (has_ptr_by classify bs).
-  change (filter is_data bs) with (datas_by classify bs).
+  destruct (sframed w) eqn:Hfr; cbn [negb].
+  2:{ destruct w; try discriminate; reflexivity. }
+  destruct (sdec w) as [bs|] eqn:Hd.
+  2:{ destruct w; try discriminate; reflexivity. }
   destruct (select_by classify None bs) as [r|e] eqn:Hsel.
   - destruct (select_sound _ _ _ Hsel) as [Hin [Hc Hnp]].
+    change (existsb is_ptr bs) with (has_ptr_by classify bs).
     rewrite Hnp, (existsb_eqb_in _ _ Hin), (data_not_log _ Hc).
-    unfold is_data, is_data_by. rewrite Hc. cbn [cls_eqb negb andb].
-    destruct (datas_by classify bs) as [|d [|d2 rest]] eqn:Hd; try reflexivity.
-    rewrite (select_unique _ _ _ Hnp Hd) in Hsel. inversion Hsel; subst d.
+    assert (Hdr : is_data r = true) by (unfold is_data, is_data_by; now rewrite Hc).
+    rewrite Hdr. cbn [negb andb].
+    destruct w as [bs' | w' | tag f d]; try reflexivity.
+    cbn [sdec] in Hd. inversion Hd; subst bs'.
+    change (existsb is_ptr bs) with (has_ptr_by classify bs). rewrite Hnp.
+    change (filter (is_data_by classify) bs) with (datas_by classify bs).
+    change (filter is_data bs) with (datas_by classify bs).
+    destruct (datas_by classify bs) as [|d0 [|d2 rest]] eqn:Hdd; try reflexivity.
+    rewrite (select_unique _ _ _ Hnp Hdd) in Hsel. inversion Hsel; subst d0.
     rewrite batch_eqb_refl. reflexivity.
-  - apply select_err_inv in Hsel as [[Hpt _] | [Hpt [Hd _]]].
+  - cbn [andb]. destruct w as [bs' | w' | tag f d]; try reflexivity.
+    cbn [sdec] in Hd. inversion Hd; subst bs'.
+    change (existsb is_ptr bs) with (has_ptr_by classify bs).
+    change (filter is_data bs) with (datas_by classify bs).
+    apply select_err_inv in Hsel as [[Hpt _] | [Hpt [Hdd _]]].
     + rewrite Hpt. reflexivity.
-    + rewrite Hpt, Hd. reflexivity.
+    + rewrite Hpt, Hdd. reflexivity.
 Qed.
 
 Lemma should_ext_true c b size :
@@ -503,7 +533,8 @@ Proof.
         destruct (mhas (b_meta b ++ side) c30_k_log_level) eqn:Hlog; try reflexivity.
         cbn [negb andb apply_sha round_srv].
         assert (Hne : x :: u <> []) by discriminate.
-        pose proof (roundtrip_lemma swire SIpc sdec SZ sdecomp (ssha t) sdec_enc sdecomp_comp
+        pose proof (roundtrip_lemma swire SIpc sdec SZ sdecomp (ssha t) sframed
+                      sdec_enc sdecomp_comp sframed_enc
                       c' b size side (x :: u) Hs Hr Ht Hlb Hne Hu Hlog) as RT.
         cbn zeta in RT. rewrite (ext_due swire SIpc SZ (ssha t) c' b size side _ Hs Hr Ht), Hlb in RT.
         cbn zeta in RT. cbn [x_batch x_meta x_err x_up] in RT.
